@@ -11,7 +11,18 @@ open AdaptaVerif.Model.ShortestPaths (Dist)
 structure NodeK where
   neighbours : List Nat      -- `std::vector<Node<T>*> neighbours`
   nweights : List Dist       -- `std::vector<T> nweights`
+  id : Nat := 0              -- `unsigned id` (set to the index by `dijkstra`)
   d : Dist := none           -- `T d` (tentative distance; read and written by the relax loop of `dijkstra`)
   deriving Repr, Inhabited
+
+/-- the operations of `PairingHeap<Node<T>*, CompareNodes<T>>` that `dijkstra` uses, uninterpreted (the heap type `H` is
+    abstract). The comparator reads keys through the node pointers (`u->d < v->d`), so `insert` and `decreaseKey` receive
+    the node array; `extractMin` returns the extracted node (index) and the new heap. -/
+structure HeapOps (H : Type) where
+  empty : H
+  isEmpty : H → Bool
+  insert : H → Nat → Array NodeK → H
+  extractMin : H → Nat × H
+  decreaseKey : H → Nat → Array NodeK → H
 
 end AdaptaVerif.Gen.KeysShortest
